@@ -160,9 +160,11 @@ func runLookupNode(seed uint64) {
 				case lbHonest:
 					out = append(out, lp.knows...)
 				case lbSilent:
+					w.fault("peer_silent_timeout")
 					time.Sleep(700 * time.Millisecond)
 					qerr = errors.New("RPC timeout")
 				case lbError:
+					w.fault("peer_request_error")
 					qerr = errors.New("boom")
 				case lbDuplicates:
 					out = append(append(append(out, lp.knows...), lp.knows...), lp.node)
@@ -197,6 +199,7 @@ func runLookupNode(seed uint64) {
 			go func() {
 				time.Sleep(time.Duration(ms) * time.Millisecond)
 				cancelled = true
+				w.fault("lookup_cancelled_midway")
 				cancel()
 			}()
 		}
@@ -393,11 +396,13 @@ func runLookupContent(seed uint64) {
 				asker, _ := rlp.EncodeToBytes(from.Record())
 				return append([]byte{portalwire.CONTENT, portalwire.ContentEnrsSelector}, sszLists(append(others(), me, asker))...)
 			case 2: // silent
+				w.fault("peer_silent_timeout")
 				time.Sleep(2 * time.Second)
 				return nil
 			case 3: // empty ENR list
 				return []byte{portalwire.CONTENT, portalwire.ContentEnrsSelector}
 			}
+			w.fault("peer_garbage_answer")
 			return []byte{portalwire.CONTENT, 0x07} // garbage selector
 		}
 	}
